@@ -415,9 +415,10 @@ Proof.
   apply forallb_fes_in in Hdata.
   pose proof (hrp_expand_in _ Hh) as He. pose proof (hrp_expand_in _ Hh') as He'.
   unfold verify_checksum in *. apply Z.eqb_eq in Hv. apply Z.eqb_neq. rewrite <- Hv. clear Hv.
-  unfold hrp_expand in *. rewrite !map_app in *. cbn [map] in *.
+  unfold hrp_expand in *.
   set (hi := fun c0 : Z => Z.shiftr (to_lower c0) 5) in *.
   set (lo := fun c0 : Z => Z.land (to_lower c0) 31) in *.
+  rewrite !map_app in *. cbn [map] in *.
   unfold fes_in in He, He'.
   repeat (rewrite ?Forall_app in He; rewrite ?Forall_app in He').
   destruct He as [[Hhp Hhic] [_ [Hlp Hloc]]]. destruct He' as [[_ Hhic'] [_ [_ Hloc']]].
